@@ -90,6 +90,13 @@ static std::vector<Variant> run_library(
       s_scaled.push_back(cart_of(psrcA.get()[k])); t_scaled.push_back(cart_of(ptgtA.get()[k]));
     }
     FindRigidTransformationByLeastSquares<P> est;
+    if (cd.decoy_first) {
+      // history on the preconditioner: another scale (possibly exactly 1, possibly the same) first
+      S s0 = r.coin(0.3) ? S(1) : static_cast<S>(r.logu(1e-3, 1e3));
+      PreconditionedPointSet<P> d1(src, s0), d2(tgt, s0);
+      est.setPreconditioner(d1, d2);
+      (void)est.find(d1, d2, nrm, cd.corr);
+    }
     est.setPreconditioner(psrc, ptgt);
     out.push_back({rep + "precond_indexed", to_ld(est.find(psrc, ptgt, nrm, cd.corr))});
     est.setPreconditioner(psrcA, ptgtA);
@@ -278,6 +285,25 @@ static void run_case(vh::Ctx & c, vh::Rng & r, CaseData & cd)
       const char * o = cd.theta == 0 ? "recovers_pure_translation" : "recovers_rotation_O(theta^2)";
       c.expect_le(o, err, xtol + lin + rnd, cd.theta == 0 ? "translation_not_recovered" : "rotation_not_recovered", params, wit);
     }
+  }
+  // ---- argument aliasing: source and target are ONE PointSet object (a scan registered against a
+  // later part of itself), correspondences i -> i + n; must equal the answer for separate objects
+  {
+    const size_t nn = s_used.size();
+    PointSet<PC> both(2 * nn), srcO(nn), tgtO(2 * nn); NormalSet<PC> nrmB(2 * nn);
+    std::vector<Correspondence> cc;
+    for (size_t i = 0; i < nn; ++i) {
+      both[i] = make_point<PC>(s_used[i]); both[nn + i] = make_point<PC>(t_used[i]);
+      nrmB[i] = make_point<PC>(n_used[i]); nrmB[nn + i] = make_point<PC>(n_used[i]);
+      cc.emplace_back(i, nn + i);
+    }
+    PointSet<PC> copy_of_both = both;
+    FindRigidTransformationByLeastSquares<PC> e1, e2;
+    MatL Ha = to_ld(e1.find(both, both, nrmB, cc));
+    MatL Hb = to_ld(e2.find(both, copy_of_both, nrmB, cc));
+    c.expect_le("aliased_source_and_target", (Ha - Hb).cwiseAbs().maxCoeff(), 0.0L, "depends_on_argument_aliasing", params, [&]() {
+        return vh::J().f("n", (int)nn).raw("H_same_object", vh::jmat(Ha)).raw("H_separate_objects", vh::jmat(Hb)).str();
+      });
   }
   // ---- history with a RELATED second problem: one estimator solves the problem and then an exact
   // symmetric image of it (mirror of the last axis, quarter/half turn about z, reversed order) or
